@@ -204,9 +204,10 @@ def run(pid, tier):
         nbeh = nbeh_total
         # ---- Leg T ----
         tr = os.path.join(vlib.WORK, "%s_trace.ndjson" % pid)
-        for k in range(1, 12):
-            if os.path.exists(tr + ".rest%d" % k):
-                os.remove(tr + ".rest%d" % k)
+        for k in range(0, 12):  # leftovers of an earlier run must not be mistaken for this run's accepted remainder
+            for f in (tr + ".rest%d" % k, tr + ".g0.rest%d" % k, tr + ".g0"):
+                if os.path.exists(f):
+                    os.remove(f)
         vlib.vh(["record", "mem", "--tier", tier, "--part", "hist,rbtrunc", "-o", tr], bin="vh_memory", timeout=2400)
         events = vlib.read_ndjson(tr)
         sizes_seen = [e.get("mem_size") for e in events if e.get("ev") == "Seg"]
@@ -222,8 +223,9 @@ def run(pid, tier):
         else:
             good = tr
             k = 1
-            while os.path.exists(tr + ".rest%d" % k):  # validate() wrote the trace minus rejected (known-finding) segments
-                good = tr + ".rest%d" % k
+            # validate() leaves the trace minus rejected (known-finding) segments in <trace>.g0.rest<k>
+            while os.path.exists(tr + ".g0.rest%d" % k) or os.path.exists(tr + ".rest%d" % k):
+                good = tr + (".g0.rest%d" if os.path.exists(tr + ".g0.rest%d" % k) else ".rest%d") % k
                 k += 1
             tests = [("Verify.ok", tc.flip_bool_field("Verify", "ok")), ("Dump.pages", _corrupt_pages)]
             if thorough:
